@@ -9,7 +9,7 @@
 #   plain : gcc  -O1 -g, also as shared object        (C20 writable-segment scan)
 
 REPO ?= /repo
-B    := build
+B    ?= build
 SRCS := $(wildcard $(REPO)/src/*.c)
 HDRS := $(wildcard $(REPO)/src/*.h) $(wildcard $(REPO)/include/uriparser/*.h) $(REPO)/src/UriConfig.h.in
 NAMES := $(notdir $(SRCS:.c=))
